@@ -142,8 +142,12 @@ def _run(ctx):
         run_and_validate(ctx, exe, ["script", sp, "@OUT", "guard"], tr, "%d model cases, guarded buffers" % len(cases), count_as="replay")
     #    ... and call sequences of the serializer model
     behs = ctx.tlc_gen(SPEC, "Gen_Serializer.tla", "Gen_Serializer_bfs.cfg", jvm=JVM)
-    deep = ctx.tlc_gen(SPEC, "Gen_Serializer.tla", "Gen_Serializer.cfg", simulate=(1000000, 10), timeout=8 if quick else 40, jvm=JVM,
-                       limit=3000 if quick else 60000, workers=2)
+    try:
+        deep = ctx.tlc_gen(SPEC, "Gen_Serializer.tla", "Gen_Serializer.cfg", simulate=(1000000, 10), timeout=8 if quick else 40, jvm=JVM,
+                           limit=3000 if quick else 60000, workers=2)
+    except vlib.Infra:            # a loaded machine: the JVM was not up within the window - give it more time once
+        deep = ctx.tlc_gen(SPEC, "Gen_Serializer.tla", "Gen_Serializer.cfg", simulate=(1000000, 10), timeout=60, jvm=JVM,
+                           limit=3000 if quick else 60000, workers=2)
     ctx.notes.append("Gen_Serializer: %d call sequences of length 3 (exhaustive, BFS) + %d random sequences of length 10" % (len(behs), len(deep)))
     ctx.sample({"kind": "serializer model behaviour replayed on the real classes", "script": deep[0]})
     sp = ctx.tmp("gen_ser.jsonl")
@@ -154,7 +158,7 @@ def _run(ctx):
                          count_as="replay")
 
     # 3. code -> spec: seeded random calls ----------------------------------------------------------------------------------
-    n_exec = 300 if quick else 2000
+    n_exec = 300 if quick else 5000
     for mode in ("exact", "guard"):
         tr = ctx.tmp("random_%s.ndjson" % mode)
         seed = ctx.seed * 2 + (1 if mode == "guard" else 0)
@@ -181,7 +185,7 @@ def _run(ctx):
     tr = ctx.tmp("md5_lengths.ndjson")
     run_and_validate(ctx, exe, ["script", sp, "@OUT", "exact"], tr, "MD5 at %d boundary lengths, all splits" % len(lens))
     tr = ctx.tmp("random_md5aes.ndjson")
-    ok, lines = run_and_validate(ctx, exe, ["random", ctx.seed, 40 if quick else 400, "@OUT", "exact", "Md5,Aes"], tr, "MD5 splits and AES blocks")
+    ok, lines = run_and_validate(ctx, exe, ["random", ctx.seed, 60 if quick else 1200, "@OUT", "exact", "Md5,Aes"], tr, "MD5 splits and AES blocks")
     if ok:
         ev = next((json.loads(x) for x in lines if '"e":"Md5"' in x and '"mode":"all3"' in x), None)
         if ev:
